@@ -5,6 +5,7 @@ from __future__ import annotations
 import itertools
 
 import connbench
+import fh
 from common import Check, run_driver_parallel
 
 RANK = {"init": 0, "sockOpen": 1, "hsDone": 2, "connected": 3, "closed": 4}
@@ -145,7 +146,8 @@ def run_pool(scen, timed=False):
                     if dur > BOUNDS[n] + 1e-6:
                         hang = f"late:{n}:{dur:.1f}s>{BOUNDS[n]}s"
         info = {"steps": list(b.steps), "raw_escapes": list(b.raw_escapes), "unhandled": len(b.loop.unhandled),
-                "extra_accepted": [n for n, _ in b.extra_accepted], "hang": hang, "user_cancelled": sorted(b.user_cancelled)}
+                "extra_accepted": [n for n, _ in b.extra_accepted], "hang": hang, "user_cancelled": sorted(b.user_cancelled),
+                "first_reported": (fh.err_class(b.conn.first_reported) if getattr(b.conn, "first_reported", None) is not None else None)}
         lines, obs = b.lines, b.obs
         b.close()
         out.append((lines, obs, info))
@@ -290,6 +292,11 @@ def spec_c09(obs, lines, info):
         fatal = f
     if info["raw_escapes"]:
         return "raw-escape:" + info["raw_escapes"][0][0], len(obs) - 1
+    # first cause wins: the first error reported as fatal is the one kept (unless an earlier cause had been recorded
+    # without a report: then that one is kept) - never nothing
+    fr = info.get("first_reported")
+    if fr is not None and fatal == "none":
+        return f"first-cause-dropped:{fr}", len(obs) - 1
     if info.get("hang"):
         return info["hang"], len(obs) - 1
     return None
